@@ -119,6 +119,120 @@ func runC14(c *Ctx) {
 		c14Random(c, synced, 5+c.Rng.Intn(36), fields, rules, withTTL)
 	}
 	c.Count("ttl_cases", nRandom/40)
+	c14Keys(c)
+	for _, synced := range []bool{false, true} {
+		c14Lifetime(c, synced)
+	}
+}
+
+// the cache key itself: equal to the Lean mirror byte for byte, and injective over a universe of fields built
+// to collide (separators, length-prefix look-alikes, multi-byte characters)
+func c14Keys(c *Ctx) {
+	fields := []string{"a", "b", "c", "d", "a$$b", "c$$d", "b$$c", "4:a", "4:c", "1:a", "@1:a", "$", "a$", "$b", "$$", "", "é", "alice", "alice$", "$data1", "data1", "read", "1:", ":"}
+	byKey := map[string]string{}
+	check := func(ps []cParam) {
+		args := make([]interface{}, len(ps))
+		for i, p := range ps {
+			args[i] = p.goVal()
+		}
+		key, ok := casbin.GetCacheKey(args...)
+		obs := "none"
+		if ok {
+			obs = "k:" + proto.Enc(key)
+			canon := paramsTok(ps)
+			if prev, seen := byKey[key]; seen && prev != canon {
+				c.Direct("two different request tuples share one cache key", fmt.Sprintf("%s and %s -> %q", prev, canon, key))
+			}
+			byKey[key] = canon
+		}
+		c.W.Op("ckey "+paramsTok(ps), obs)
+		c.Evals++
+		c.Count("key_checks", 1)
+	}
+	for _, a := range fields {
+		check([]cParam{{"s", a}})
+		for _, b := range fields {
+			check([]cParam{{"s", a}, {"s", b}})
+			for _, d := range fields {
+				check([]cParam{{"s", a}, {"s", b}, {"s", d}})
+			}
+		}
+	}
+	check([]cParam{{"c", ""}, {"s", "a"}})
+	check([]cParam{{"s", casbin.NewEnforceContext("").GetCacheKey()}, {"s", "a"}})
+	check([]cParam{{"x", ""}, {"s", "a"}})
+}
+
+// scripted lifetime scenarios (real time): a decision cached under a positive lifetime must not be served
+// after the lifetime; one cached under lifetime 0 never expires
+func c14Lifetime(c *Ctx, synced bool) {
+	for variant := 0; variant < 3; variant++ {
+		cs := newC14Case(synced)
+		s := "0"
+		if synced {
+			s = "1"
+		}
+		c.W.Op("case cached "+s, "#")
+		q := strParams([]string{"alice", "data1", "read"})
+		args := []interface{}{"alice", "data1", "read"}
+		enf := func() {
+			ub, uerr := cs.under(args...)
+			u := "f"
+			if uerr != nil {
+				u = "e"
+			} else if ub {
+				u = "t"
+			}
+			ok, err := cs.api.Enforce(args...)
+			obs := proto.Bool(ok)
+			if err != nil {
+				obs = "err"
+			}
+			c.W.Op("cenf "+u+" "+paramsTok(q), obs)
+		}
+		start := time.Now()
+		switch variant {
+		case 0: // cached under a 300 ms lifetime, underlying changes, lifetime passes
+			cs.api.SetExpireTime(ttlUnit)
+			c.W.Op("cttl 300", "#")
+			enf()
+			_, _ = cs.direct.AddNamedPolicy("p", []string{"alice", "data1", "read"})
+			enf()
+			if time.Since(start) > ttlUnit/3 {
+				c.Count("ttl_case_abandoned", 1)
+				continue
+			}
+			time.Sleep(ttlUnit + ttlUnit/3)
+			c.W.Op("tick 400", "#")
+			enf()
+		case 1: // cached with lifetime 0 (never expires), then a lifetime is configured
+			enf()
+			cs.api.SetExpireTime(ttlUnit)
+			c.W.Op("cttl 300", "#")
+			_, _ = cs.direct.AddNamedPolicy("p", []string{"alice", "data1", "read"})
+			time.Sleep(ttlUnit + ttlUnit/3)
+			c.W.Op("tick 400", "#")
+			enf()
+		case 2: // re-cached after expiry: the new entry lives for a full lifetime again
+			cs.api.SetExpireTime(ttlUnit)
+			c.W.Op("cttl 300", "#")
+			enf()
+			time.Sleep(ttlUnit + ttlUnit/3)
+			c.W.Op("tick 400", "#")
+			_, _ = cs.direct.AddNamedPolicy("p", []string{"alice", "data1", "read"})
+			t1 := time.Now()
+			enf()
+			_, _ = cs.direct.RemoveNamedPolicy("p", []string{"alice", "data1", "read"})
+			enf()
+			if time.Since(t1) > ttlUnit/3 {
+				c.Count("ttl_case_abandoned", 1)
+				continue
+			}
+		}
+		c.Evals++
+		c.Count("lifetime_scenarios", 1)
+		c.Nontrivial(fmt.Sprintf("lifetime|%v|%d", synced, variant))
+	}
 }
 
 func c14Random(c *Ctx, synced bool, length int, fields []string, rules [][]string, withTTL bool) {
